@@ -469,6 +469,9 @@ class CSV(FileHandler):
         Returns:
             None
         """
+        # Compressing is the business of the caller (FileSet.compress), pandas
+        # must not infer it from the suffix: read() would not undo it.
+        kwargs.setdefault("compression", None)
         data.to_dataframe().to_csv(file_info.path, **kwargs)
 
 
